@@ -72,7 +72,8 @@ fn worker_ops(sys: &Sys, rng: &mut Rng, widx: u64, n: u64, results: &Mutex<Vec<C
             0 => { // add a ROA nobody else adds (accepted unless the CA does not hold the prefix)
                 let atom = match ca { "a" => rng.below(8), "b" => rng.below(4), "c" => rng.below(2), _ => 4 + rng.below(2) };
                 let roa = format!("10.{}.{}.0/24 => {}", atom, widx * 20 + k, 64512 + widx);
-                let ok = sys.routes_update(ca, &[&roa], &[]).is_ok();
+                // every other one on behalf of a logged-in user: the audit record must name that user
+                let ok = if k % 2 == 1 { sys.routes_update_as(&format!("worker{widx}"), ca, &[&roa], &[]).is_ok() } else { sys.routes_update(ca, &[&roa], &[]).is_ok() };
                 results.lock().unwrap().push(CallResult { ca: ca.into(), kind: "roa_add", roa: Some(roa), ok });
             }
             1 => { // a ROA outside every CA's resources: rejected, stored with the error
@@ -357,6 +358,7 @@ fn run_case(args: &Args, run: u64, seed: u64, w: &mut CaseWriter, jsonl: &mut st
     let mut none_lost = atomic_ok;
     let mut history_complete = true;
     let mut new_commands = 0;
+    let mut audit_actors_checked = 0u64;
     // after a deadlock / timeout nothing of the instance may be touched any more: every call would block on the
     // locks the stuck threads hold (the deadlock itself is the finding; the observables are left at their defaults)
     let cas_to_observe: &[&str] = if completed { &CAS } else { &[] };
@@ -385,6 +387,23 @@ fn run_case(args: &Args, run: u64, seed: u64, w: &mut CaseWriter, jsonl: &mut st
                 let key = Ident::boxed_from_string(format!("command-{v}.json")).unwrap();
                 if let Ok(Some(c)) = store.get::<Value>(Some(&scope), &key) {
                     if c["details"]["type"] == "roa_definition_updates" { if c["effect"]["events"].is_array() { stored_roa_ok += 1 } else { stored_err += 1 } }
+                    // "with its actor": the record of a ROA addition names who sent it (worker w, odd op: user:worker<w>)
+                    if let Some(added) = c["details"]["updates"]["added"].as_array().and_then(|a| a.first()).map(|x| x.to_string()) {
+                        for r in results.iter().filter(|r| r.ca == h && r.kind == "roa_add") {
+                            let roa = r.roa.as_ref().unwrap();
+                            let (pfx, asn) = roa.split_once(" => ").unwrap();
+                            if added.contains(pfx) && added.contains(asn) {
+                                let third: u64 = pfx.split('.').nth(2).and_then(|x| x.parse().ok()).unwrap_or(0);
+                                let (w, k) = (third / 20, third % 20);
+                                let expect = if k % 2 == 1 { format!("user:worker{w}") } else { sys.actor.audit_name() };
+                                audit_actors_checked += 1;
+                                if c["actor"].as_str() != Some(expect.as_str()) {
+                                    if std::env::var("KV_DEBUG").is_ok() { eprintln!("audit actor of {roa}: stored {} expected {expect}", c["actor"]); }
+                                    history_complete = false;
+                                }
+                            }
+                        }
+                    }
                 }
             }
             let exp_ok = results.iter().filter(|r| r.ca == h && r.kind == "roa_add" && r.ok).count();
@@ -495,7 +514,7 @@ fn run_case(args: &Args, run: u64, seed: u64, w: &mut CaseWriter, jsonl: &mut st
         completed, versions_consecutive, none_lost, history_complete);
     let rec_json = json!({"index": w.total, "run": run, "backend": if disk {"disk"} else {"memory"}, "workers": n_workers, "ops_per_worker": n_ops, "threads_seen": n_threads,
         "probe_events": events.len(), "lock_events": lock_events.len(), "entity_trace": trace.len(), "locks": locks.map.len(), "nesting_edges": edges.len(), "repository_file_steps_in_trace": repo_fs_steps,
-        "new_commands": new_commands, "phase0_listener_failure_after_restart": phase0, "completed": completed, "versions_consecutive": versions_consecutive, "none_lost_or_doubled": none_lost, "history_complete": history_complete, "repository_view_equals_fresh_load": repo_view_ok, "published_repository_after_catch_up": published,
+        "new_commands": new_commands, "audit_actors_checked": audit_actors_checked, "phase0_listener_failure_after_restart": phase0, "completed": completed, "versions_consecutive": versions_consecutive, "none_lost_or_doubled": none_lost, "history_complete": history_complete, "repository_view_equals_fresh_load": repo_view_ok, "published_repository_after_catch_up": published,
         "nesting": edges.iter().map(|(a, b)| { let n = |x: &u64| locks.map.iter().find(|(_, id)| *id == x).map(|(s, _)| s.rsplit('/').next().unwrap_or(s).to_string()).unwrap_or_default(); format!("{} -> {}", n(a), n(b)) }).collect::<Vec<_>>(),
         "class": {"completed": completed}});
     use std::io::Write;
